@@ -4,6 +4,7 @@
 package main
 
 import (
+	"crypto/sha1"
 	"encoding/json"
 	"fmt"
 	"os"
@@ -13,6 +14,8 @@ import (
 	"runtime/metrics"
 	"sort"
 	"strings"
+	"sync/atomic"
+	"syscall"
 	"time"
 
 	"verifharness/vh"
@@ -30,13 +33,15 @@ const (
 )
 
 // time limits.  The machine is shared (load average far above the core count
-// during development) and several decoders legitimately spend ~30 us per
-// array element on a mismatching element type, so the limits are generous and
-// grow with the input: a case is a violation when it needs more than 5 s +
-// 100 us per input byte, and is abandoned (run stops, violation) after
-// 60 s + 200 us per byte.
+// during development; wall times of one and the same case varied by 4x) and
+// several decoders legitimately spend ~30 us per array element on a
+// mismatching element type, so (1) the "slow" rule is on CPU time of the
+// process (getrusage), not wall time: a case is a violation when it needs more
+// than 5 s + 100 us per input byte of CPU; (2) a case that has not returned
+// after 120 s + 400 us per byte of WALL time is abandoned (the run stops with
+// a violation: a stuck decoder cannot be cancelled).
 func slowAfter(n int) time.Duration    { return 5*time.Second + time.Duration(n)*100*time.Microsecond }
-func abandonAfter(n int) time.Duration { return 60*time.Second + time.Duration(n)*200*time.Microsecond }
+func abandonAfter(n int) time.Duration { return 120*time.Second + time.Duration(n)*400*time.Microsecond }
 
 // allocBudget: 64 MiB flat plus 4 KiB per input byte.  The measured maxima on
 // the unchanged tree are reported in the evidence notes; they are more than an
@@ -86,10 +91,12 @@ type fuzzer struct {
 	done  chan outcome
 	blow  chan uint64
 	timer *time.Timer
+	hs    []metrics.Sample
 	stats map[string]*epStat
 	cls   map[string]int
 	stop  bool
 	total int
+	heapBase atomic.Uint64 // live heap when the current case started (the harness keeps results of its own)
 	// inflight.json kept open
 	infl     *os.File
 	inflLen  int
@@ -98,7 +105,7 @@ type fuzzer struct {
 
 func newFuzzer(c *vh.Ctx) *fuzzer {
 	f := &fuzzer{c: c, jobs: make(chan job), done: make(chan outcome), blow: make(chan uint64, 1),
-		stats: map[string]*epStat{}, cls: map[string]int{}}
+		stats: map[string]*epStat{}, cls: map[string]int{}, hs: []metrics.Sample{{Name: "/memory/classes/heap/objects:bytes"}}}
 	debug.SetMemoryLimit(memLimit)
 	go f.worker()
 	go f.watchdog()
@@ -112,6 +119,18 @@ func newFuzzer(c *vh.Ctx) *fuzzer {
 func allocated(s []metrics.Sample) uint64 {
 	metrics.Read(s)
 	return s[0].Value.Uint64()
+}
+
+// cpuTime is the CPU time (user+system) consumed by this process so far.  Only
+// the worker goroutine runs decoder code, so the delta over a case is the
+// case's own cost plus the collector's; unlike wall time it is not inflated
+// by other processes competing for the machine.
+func cpuTime() time.Duration {
+	var ru syscall.Rusage
+	if syscall.Getrusage(syscall.RUSAGE_SELF, &ru) != nil {
+		return 0
+	}
+	return time.Duration(ru.Utime.Nano() + ru.Stime.Nano())
 }
 
 func liveHeap(s []metrics.Sample) uint64 {
@@ -129,9 +148,9 @@ func (f *fuzzer) worker() {
 			continue
 		}
 		a0 := allocated(sa)
-		t0 := time.Now()
+		c0 := cpuTime()
 		o.panicked, o.pval = vh.Recover(func() { o.err = j.e.fn(j.in) })
-		o.dur = time.Since(t0)
+		o.dur = cpuTime() - c0
 		o.alloc = allocated(sa) - a0
 		f.done <- o
 	}
@@ -198,7 +217,7 @@ func (f *fuzzer) watchdog() {
 	for {
 		time.Sleep(10 * time.Millisecond)
 		metrics.Read(s)
-		if v := s[0].Value.Uint64(); v > heapCeiling {
+		if v := s[0].Value.Uint64(); v > f.heapBase.Load()+heapCeiling {
 			select {
 			case f.blow <- v:
 			default:
@@ -228,6 +247,7 @@ func (f *fuzzer) exec(e *entry, in []byte, class string, live bool, rp freplay) 
 	}
 	limit := abandonAfter(len(in))
 	f.timer.Reset(limit)
+	f.heapBase.Store(liveHeap(f.hs))
 	f.jobs <- job{e, in, live}
 	select {
 	case o := <-f.done:
@@ -281,7 +301,8 @@ func (f *fuzzer) one(e *entry, in []byte, class string) bool {
 		return false
 	}
 	nontrivial := class != "random" && class != "empty"
-	f.c.Res.Count(e.name+"|"+rp.Hex, nontrivial, "")
+	sum := sha1.Sum(in)
+	f.c.Res.Count(e.name+"|"+string(sum[:]), nontrivial, "")
 	switch {
 	case o.panicked:
 		st.panics++
@@ -296,7 +317,7 @@ func (f *fuzzer) one(e *entry, in []byte, class string) bool {
 		st.maxDurIn = class + " " + short(in)
 	}
 	if o.dur > slowAfter(len(in)) {
-		f.c.Res.Violate("monitor", e.name+":timeout", fmt.Sprintf("%s took %v on a %d-byte input (%s): %s", e.name, o.dur, len(in), class, short(in)), rp)
+		f.c.Res.Violate("monitor", e.name+":timeout", fmt.Sprintf("%s used %v of CPU on a %d-byte input (%s): %s", e.name, o.dur, len(in), class, short(in)), rp)
 	}
 	if o.alloc > st.maxAlloc {
 		st.maxAlloc, st.maxAllocLen = o.alloc, len(in)
@@ -370,7 +391,7 @@ func runFuzz(c *vh.Ctx, only string, rp *freplay) {
 		os.Exit(3)
 	}
 	adv := adversarial(c.Thorough())
-	perEntry := c.Pick(20, 600)
+	perEntry := c.Pick(20, 250)
 	for i := range es {
 		e := &es[i]
 		if only != "" && !strings.Contains(e.name, only) {
@@ -455,13 +476,13 @@ func (f *fuzzer) report(es []entry, cp *corpus) {
 		panics += s.panics
 	}
 	sort.Slice(rows, func(i, j int) bool { return rows[i].s.maxAlloc > rows[j].s.maxAlloc })
-	c.Res.Notes = append(c.Res.Notes, fmt.Sprintf("FUZZING (not a proof): %d cases over %d public entry points: %d values, %d errors, %d panics; violation rule: panic, wall time > 5 s + 100 us/byte, or peak live heap > 256 MiB + 4096 B per input byte (first stage: cumulative allocation of the call <= 64 MiB + 4096 B/byte settles it; %d cases needed the second stage = forced-GC peak-live measurement, max of 2)",
+	c.Res.Notes = append(c.Res.Notes, fmt.Sprintf("FUZZING (not a proof): %d cases over %d public entry points: %d values, %d errors, %d panics; violation rule: panic, CPU time > 5 s + 100 us/byte (abandoned after 120 s + 400 us/byte wall), or peak live heap > 256 MiB + 4096 B per input byte (first stage: cumulative allocation of the call <= 64 MiB + 4096 B/byte settles it; %d cases needed the second stage = forced-GC peak-live measurement, max of 2)",
 		f.total, len(f.stats), values, errs, panics, f.restaged))
 	for i, r := range rows {
 		if i >= 8 {
 			break
 		}
-		c.Res.Notes = append(c.Res.Notes, fmt.Sprintf("max alloc %s: %.1f MiB on a %d-byte input (max ratio %.0f B/byte, max time %v, %d cases)",
+		c.Res.Notes = append(c.Res.Notes, fmt.Sprintf("max alloc %s: %.1f MiB on a %d-byte input (max ratio %.0f B/byte, max cpu %v, %d cases)",
 			r.name, float64(r.s.maxAlloc)/(1<<20), r.s.maxAllocLen, r.s.maxRatio, r.s.maxDur.Round(time.Millisecond), r.s.cases)+" ["+r.s.maxAllocIn+"]")
 	}
 	sort.Slice(rows, func(i, j int) bool { return rows[i].s.maxLive > rows[j].s.maxLive })
@@ -476,7 +497,7 @@ func (f *fuzzer) report(es []entry, cp *corpus) {
 		if i >= 3 {
 			break
 		}
-		c.Res.Notes = append(c.Res.Notes, fmt.Sprintf("max time %s: %v (%d cases) [%s]", r.name, r.s.maxDur.Round(time.Millisecond), r.s.cases, r.s.maxDurIn))
+		c.Res.Notes = append(c.Res.Notes, fmt.Sprintf("max cpu time %s: %v (%d cases) [%s]", r.name, r.s.maxDur.Round(time.Millisecond), r.s.cases, r.s.maxDurIn))
 	}
 	sort.Slice(rows, func(i, j int) bool { return rows[i].s.maxRatio > rows[j].s.maxRatio })
 	for i, r := range rows {
